@@ -227,7 +227,9 @@ class ProvXMLSerializer(Serializer):
             with io.BytesIO() as buf:
                 buf.write(stream.read().encode("utf-8"))
                 buf.seek(0, 0)
-                xml_doc = etree.parse(buf).getroot()
+                # the text has just been encoded as UTF-8, whatever encoding
+                # its XML declaration names
+                xml_doc = etree.parse(buf, etree.XMLParser(encoding="utf-8")).getroot()
         else:
             xml_doc = etree.parse(stream).getroot()
 
